@@ -400,6 +400,53 @@ fn worker_dirs(w: &mut WorkerCtx) {
         let key = if idx % DIRS_FRESH_EVERY == 0 { Some(format!("d{}", idx)) } else { None };
         report_dirs(w, e, key, nontrivial);
     }
+    // list-shape sweep (group 0 only): each list variable on its own takes every list of up to
+    // LIST_SHAPE_LEN segments over LIST_SEGS (repeated, adjacent-equal, trailing-separator and root entries)
+    if group == 0 {
+        let cfg0 = sp.config(0);
+        for (k, v) in cfg0.iter().skip(2) {
+            set_opt(k, v);
+        }
+        let mut j = 0u64;
+        for (var, p, q) in LISTS {
+            for val in list_shapes(p, q) {
+                j += 1;
+                if !w.mine(j) {
+                    continue;
+                }
+                TICK.fetch_add(1, Ordering::Relaxed);
+                std::env::set_var(var, &val);
+                let e = eval_dirs();
+                w.count("dirs_shape_configs", 1);
+                w.count("dirs_calls", e.calls);
+                w.count("dirs_nontrivial", 1);
+                for (sig, detail) in e.findings {
+                    w.vio(&sig, || detail, || J::obj([("part", J::s("dirs")), ("env", dirs_env_json())]));
+                }
+            }
+            std::env::remove_var(var);
+        }
+    }
+}
+
+const LIST_SHAPE_LEN: usize = 4;
+fn list_shapes(p: &str, q: &str) -> Vec<String> {
+    let segs: [String; 5] = [String::new(), p.to_string(), format!("{}/", p), q.to_string(), "/".to_string()];
+    let mut out = vec![];
+    let mut cur: Vec<Vec<usize>> = vec![vec![]];
+    for _ in 0..LIST_SHAPE_LEN {
+        let mut next = vec![];
+        for c in &cur {
+            for i in 0..segs.len() {
+                let mut d = c.clone();
+                d.push(i);
+                out.push(d.iter().map(|x| segs[*x].as_str()).collect::<Vec<_>>().join(":"));
+                next.push(d);
+            }
+        }
+        cur = next;
+    }
+    out
 }
 
 fn worker_dirs1(w: &mut WorkerCtx) {
@@ -1008,7 +1055,8 @@ pub fn run(ctx: &Ctx) -> i32 {
     }
     let cfg_expected = (0..CFG_N).filter(|i| cfg_case(*i).is_some()).count() as u64;
     let rids_expected = (SUDO_UIDS.len() * SUDO_GIDS.len() * UIDS.len() * GIDS.len()) as u64;
-    for (k, want) in [("dirs_configs", sp.n()), ("cfg_cases", cfg_expected), ("rids_cases", rids_expected)] {
+    let shapes_expected = LISTS.iter().map(|(_, p, q)| list_shapes(p, q).len() as u64).sum::<u64>();
+    for (k, want) in [("dirs_configs", sp.n()), ("dirs_shape_configs", shapes_expected), ("cfg_cases", cfg_expected), ("rids_cases", rids_expected)] {
         if total.c(k) != want {
             machinery_errors.push(format!("{} = {} but {} expected", k, total.c(k), want));
         }
@@ -1028,6 +1076,7 @@ pub fn run(ctx: &Ctx) -> i32 {
         ("rule", J::s("all cases are distinct (configuration index x function). evaluations = 9 function calls per environment configuration + config_dir cases + getrids calls. non-trivial = environment configurations with at least one variable set to a non-empty value + config_dir cases in which at least one candidate directory contains the file + getrids calls whose demanded result differs from (uid, gid).")),
         ("dirs_configurations", J::i(total.c("dirs_configs"))),
         ("dirs_function_calls", J::i(total.c("dirs_calls"))),
+        ("dirs_list_shape_configurations", J::i(total.c("dirs_shape_configs"))),
         ("config_dir_cases", J::i(total.c("cfg_cases"))),
         ("getrids_calls", J::i(total.c("rids_cases"))),
         ("fresh_process_reruns_compared", J::i(compared)),
@@ -1040,7 +1089,7 @@ pub fn run(ctx: &Ctx) -> i32 {
         (
             "bounds",
             J::s(format!(
-                "dirs: {:?} each in forms {:?} of {{0 unset, 1 \"\", 2 '/x<tag>', 3 'rel/x<tag>/'}} x {:?} each in list forms {:?} of {{0 unset, 1 \"\", 2 'p', 3 'p:q', 4 ':p::q:', 5 'relp:q/', 6 '::'}} = {} configurations; config_dir: backend {{Memfs, Stdfs}} x HOME x XDG_CONFIG_HOME {{unset, \"\", value}} x XDG_CONFIG_DIRS (6 forms incl. one that repeats the user directory) x every subset of [XDG_CONFIG_HOME dir, HOME/.config, cp, cq, /etc/xdg] holding the file (/etc/xdg only on Memfs), decoy directories of XDG_DATA_HOME, XDG_DATA_DIRS, XDG_CACHE_HOME always hold it; getrids: uid {:?} x gid {:?} x SUDO_UID {:?} x SUDO_GID {:?}",
+                "dirs: {:?} each in forms {:?} of {{0 unset, 1 \"\", 2 '/x<tag>', 3 'rel/x<tag>/'}} x {:?} each in list forms {:?} of {{0 unset, 1 \"\", 2 'p', 3 'p:q', 4 ':p::q:', 5 'relp:q/', 6 '::'}} = {} configurations + each list variable alone over every list of 1..=4 segments from {{\"\", p, p/, q, /}} (adjacent repeats, trailing separators, root); config_dir: backend {{Memfs, Stdfs}} x HOME x XDG_CONFIG_HOME {{unset, \"\", value}} x XDG_CONFIG_DIRS (6 forms incl. one that repeats the user directory) x every subset of [XDG_CONFIG_HOME dir, HOME/.config, cp, cq, /etc/xdg] holding the file (/etc/xdg only on Memfs), decoy directories of XDG_DATA_HOME, XDG_DATA_DIRS, XDG_CACHE_HOME always hold it; getrids: uid {:?} x gid {:?} x SUDO_UID {:?} x SUDO_GID {:?}",
                 SINGLE.iter().map(|x| x.0).collect::<Vec<_>>(),
                 sp.singles,
                 LISTS.iter().map(|x| x.0).collect::<Vec<_>>(),
